@@ -32,7 +32,7 @@ use std::time::Instant;
 
 pub const META: Meta = Meta {
     level: "model_checking",
-    rule: "non-smart: every (N, k) with N in 1..=5 (quick) / 1..=7 (thorough), k in 1..=min(4, N+1), and for each every execution: at each point where the dial is pending the explorer picks which in-flight transport dial completes next, whether it succeeds or fails, and whether further completions are batched before the dial future is polled again. smart: 4 address sets (3-4 addresses with different ranked delays), choices: advance the virtual clock to the next timer or complete an in-flight dial (ok/err). Non-trivial = distinct executions in which at least one dial failed before the outcome (refill / error aggregation exercised).",
+    rule: "non-smart: every (N, k) with N in 1..=5 (quick) / 1..=7 (thorough), k in 1..=min(4, N+1), and for each every execution: at each point where the dial is pending the explorer picks which in-flight transport dial completes next, whether it succeeds or fails, and whether further completions are batched before the dial future is polled again. smart: 4 address sets (3-4 addresses with different ranked delays), choices: advance the virtual clock to the next timer or complete an in-flight dial (ok/err). swarm level: a real Swarm over a transport whose dial futures record their first poll dials N in {3,5} addresses with override_dial_concurrency_factor k in {1,2} placed before / after .addresses(..) and with Config::with_dial_concurrency_factor k in {1,2,8}; attempts fail one at a time (oldest / newest first); dial futures polled-and-unfinished <= effective k after every step, each address dialed exactly once. Non-trivial = distinct executions in which at least one dial failed before the outcome (refill / error aggregation exercised).",
     explanation: "E1 stateless exploration with free branching (all choice sequences, no deviation bound); each execution drives the production future with harness dial futures; oracle evaluated after every poll and on the result.",
     assumptions: &["poll-granularity interleaving on one thread", "a dial future that was polled at least once counts as attempted / in flight until it completes"],
 };
@@ -308,10 +308,189 @@ fn body(cfg: &Value) -> impl FnMut(&mut Chooser) -> Result<(), String> {
     }
 }
 
+// ---------------------------------------------------------------------------------------------
+// Part 2: the concurrency factor at the Swarm level. A real Swarm (probe behaviour of the
+// whole-Swarm family, `Config::without_executor()` so that the pending-connection task runs
+// inside `Swarm::poll`) over a transport whose dial futures record when they are first polled:
+// the Swarm creates all N dial futures up front (`Transport::dial`), "in flight" = polled and not
+// yet completed — the same notion as in part 1. The factor is given either by
+// `override_dial_concurrency_factor` (placed before or after `.addresses(..)` in the builder) or
+// by `Config::with_dial_concurrency_factor`; attempts are failed one at a time.
+
+use crate::sys::{DenyMask, Probe};
+use futures::StreamExt;
+use libp2p_core::transport::{DialOpts as TDialOpts, ListenerId, TransportEvent};
+use libp2p_core::Transport;
+use libp2p_swarm::dial_opts::DialOpts;
+use libp2p_swarm::{Swarm, SwarmEvent};
+
+const MODES: [&str; 3] = ["override-before-addresses", "override-after-addresses", "config-factor"];
+
+#[derive(Default)]
+struct TSh {
+    addrs: Vec<Multiaddr>,
+    started: Vec<bool>,
+    done: Vec<bool>,
+    fail: Vec<bool>,
+    wakers: Vec<Option<Waker>>,
+}
+struct TFut {
+    i: usize,
+    sh: Arc<Mutex<TSh>>,
+}
+impl Future for TFut {
+    type Output = Result<(PeerId, StreamMuxerBox), std::io::Error>;
+    fn poll(self: Pin<&mut Self>, cx: &mut Context<'_>) -> Poll<Self::Output> {
+        let mut s = self.sh.lock().unwrap();
+        let i = self.i;
+        s.started[i] = true;
+        if s.fail[i] {
+            s.done[i] = true;
+            return Poll::Ready(Err(std::io::Error::other("scripted failure")));
+        }
+        s.wakers[i] = Some(cx.waker().clone());
+        Poll::Pending
+    }
+}
+struct PollTransport(Arc<Mutex<TSh>>);
+impl Transport for PollTransport {
+    type Output = (PeerId, StreamMuxerBox);
+    type Error = std::io::Error;
+    type ListenerUpgrade = TFut;
+    type Dial = TFut;
+    fn listen_on(&mut self, _: ListenerId, addr: Multiaddr) -> Result<(), TransportError<std::io::Error>> {
+        Err(TransportError::MultiaddrNotSupported(addr))
+    }
+    fn remove_listener(&mut self, _: ListenerId) -> bool {
+        false
+    }
+    fn dial(&mut self, addr: Multiaddr, _: TDialOpts) -> Result<TFut, TransportError<std::io::Error>> {
+        let mut s = self.0.lock().unwrap();
+        s.addrs.push(addr);
+        s.started.push(false);
+        s.done.push(false);
+        s.fail.push(false);
+        s.wakers.push(None);
+        Ok(TFut { i: s.addrs.len() - 1, sh: self.0.clone() })
+    }
+    fn poll(self: Pin<&mut Self>, _: &mut Context<'_>) -> Poll<TransportEvent<TFut, std::io::Error>> {
+        Poll::Pending
+    }
+}
+
+/// returns whether the limit was reached with dials still waiting
+fn swarm_dial_case(n: usize, mode: usize, k: u8, newest_first: bool) -> Result<bool, String> {
+    let sh = Arc::new(Mutex::new(TSh::default()));
+    let kk = NonZeroU8::new(k).unwrap();
+    let config = libp2p_swarm::Config::without_executor().with_dial_concurrency_factor(if mode == 2 { kk } else { NonZeroU8::new(8).unwrap() });
+    let log: crate::sys::Log = Default::default();
+    let mut swarm = Swarm::new(PollTransport(sh.clone()).boxed(), Probe::new(0, log, DenyMask::default()), kit::ids::peer(0), config);
+    let addrs: Vec<Multiaddr> = (1..=n as u64).map(kit::ids::maddr).collect();
+    let p = kit::ids::peer(1);
+    let opts = match mode {
+        0 => DialOpts::peer_id(p).override_dial_concurrency_factor(kk).addresses(addrs.clone()).build(),
+        1 => DialOpts::peer_id(p).addresses(addrs.clone()).override_dial_concurrency_factor(kk).build(),
+        _ => DialOpts::peer_id(p).addresses(addrs.clone()).build(),
+    };
+    swarm.dial(opts).map_err(|e| format!("harness-desync :: dial refused: {e}"))?;
+    let flag = Arc::new(Flag(AtomicBool::new(true)));
+    let waker = futures::task::waker(flag.clone());
+    let mut cx = Context::from_waker(&waker);
+    let mut failure_reported = false;
+    let mut run = |swarm: &mut Swarm<Probe>, failure_reported: &mut bool| -> Result<(), String> {
+        for _ in 0..10_000 {
+            if !flag.0.swap(false, SeqCst) {
+                return Ok(());
+            }
+            while let Poll::Ready(Some(e)) = swarm.poll_next_unpin(&mut cx) {
+                if let SwarmEvent::OutgoingConnectionError { error: libp2p_swarm::DialError::Transport(errs), .. } = &e {
+                    *failure_reported = true;
+                    if errs.len() != n {
+                        return Err(format!("swarm-error-list-incomplete {} :: {} errors reported for {n} addresses", MODES[mode], errs.len()));
+                    }
+                }
+            }
+        }
+        Err("horizon :: swarm still runnable after 10000 polls".into())
+    };
+    let mut at_limit = false;
+    for step in 0..=n {
+        run(&mut swarm, &mut failure_reported)?;
+        let (in_flight, waiting): (Vec<usize>, usize) = {
+            let s = sh.lock().unwrap();
+            ((0..s.addrs.len()).filter(|&i| s.started[i] && !s.done[i]).collect(), s.started.iter().filter(|b| !**b).count())
+        };
+        if in_flight.len() > k as usize {
+            return Err(format!("swarm-in-flight-exceeds-k {} :: {} transport dials in flight, effective concurrency factor {k} (N={n}, after {step} failures)", MODES[mode], in_flight.len()));
+        }
+        if in_flight.len() == k as usize && waiting > 0 {
+            at_limit = true;
+        }
+        if in_flight.is_empty() {
+            break;
+        }
+        let pick = if newest_first { *in_flight.last().unwrap() } else { in_flight[0] };
+        let w = {
+            let mut s = sh.lock().unwrap();
+            s.fail[pick] = true;
+            s.wakers[pick].take()
+        };
+        if let Some(w) = w {
+            w.wake();
+        }
+    }
+    run(&mut swarm, &mut failure_reported)?;
+    let s = sh.lock().unwrap();
+    let mut dialed: Vec<String> = s.addrs.iter().map(|d| d.to_string()).collect();
+    dialed.sort();
+    let mut want: Vec<String> = addrs.iter().map(|m| m.clone().with_p2p(p).unwrap().to_string()).collect();
+    want.sort();
+    if dialed != want || !s.started.iter().all(|b| *b) {
+        return Err(format!("swarm-addresses-not-each-once {} :: transport saw {dialed:?} (started {:?}), expected each of {want:?} once", MODES[mode], s.started));
+    }
+    if !failure_reported {
+        return Err(format!("swarm-no-failure-reported {} :: all {n} attempts failed but no OutgoingConnectionError(Transport)", MODES[mode]));
+    }
+    Ok(at_limit)
+}
+
+fn swarm_part(out: &mut Outcome) {
+    let mut at_limit = 0u64;
+    for n in [3usize, 5] {
+        for mode in 0..3 {
+            for k in if mode == 2 { vec![1u8, 2, 8] } else { vec![1u8, 2] } {
+                for newest_first in [false, true] {
+                    out.evaluations += 1;
+                    out.traces += 1;
+                    out.nontrivial(&format!("swarm{n}{mode}{k}{newest_first}"));
+                    let case = json!({"part": "swarm", "n": n, "mode": mode, "k": k, "newest_first": newest_first});
+                    match mc::catch(|| swarm_dial_case(n, mode, k, newest_first)).unwrap_or_else(|p| Err(format!("panic at {} :: {p}", mc::shim::last_panic_loc().unwrap_or_default()))) {
+                        Ok(l) => at_limit += l as u64,
+                        Err(m) => out.violation(mc::bfs::signature_of(&m), m, case),
+                    }
+                }
+            }
+        }
+    }
+    out.count("swarm_level_dials", 2 * (2 * 2 + 2 * 2 + 3 * 2) as u64);
+    out.count("swarm_level_dials_at_limit", at_limit);
+    if at_limit == 0 {
+        out.machinery("vacuity: no swarm-level dial ever had k attempts in flight with addresses still waiting");
+    }
+}
+
 pub fn run(ctx: &Ctx) -> Outcome {
     let mut out = Outcome::default();
     if let Some(case) = &ctx.replay {
         out.evaluations = 1;
+        if case["part"] == "swarm" {
+            let r = mc::catch(|| swarm_dial_case(case["n"].as_u64().unwrap_or(3) as usize, case["mode"].as_u64().unwrap_or(0) as usize, case["k"].as_u64().unwrap_or(1) as u8, case["newest_first"].as_bool().unwrap_or(false)))
+                .unwrap_or_else(|p| Err(format!("panic :: {p}")));
+            if let Err(m) = r {
+                out.violation(mc::bfs::signature_of(&m), m, case.clone());
+            }
+            return out;
+        }
         let choices: Vec<u32> = serde_json::from_value(case["choices"].clone()).unwrap_or_default();
         if let Err(m) = choice::replay(&choices, body(&case["cfg"])) {
             out.violation(format!("{} {}", mc::bfs::signature_of(&m), case["cfg"]["mode"].as_str().unwrap_or("")), m, case.clone());
@@ -367,6 +546,7 @@ pub fn run(ctx: &Ctx) -> Outcome {
             }
         }
     }
+    swarm_part(&mut out);
     out.count("executions_with_failures_before_outcome", with_refill);
     out.count("results_ok", oks);
     out.count("results_err", errs);
